@@ -1,6 +1,7 @@
 """C17 Name tables behave as dictionaries under any history (DESIGN.md §3 C17)."""
 from ..interp import Interp, Obj, Sym, View, Term, is_opaque, vkey
 from ..build import AnalysisBroken
+from .. import lib_c17 as L
 
 U = 'hashmap.c'
 TOMB = -1
@@ -45,6 +46,21 @@ def _entries(ctx):
     return seen
 
 
+def _all_entries(ctx):
+    """every HashEntry object the path has touched"""
+    seen = []
+    def add(o):
+        if isinstance(o, Obj) and o not in seen:
+            seen.append(o)
+            for k, v in o.meta.items():
+                if isinstance(k, tuple) and k and k[0] == 'elem':
+                    add(v)
+    for e in ctx.events:
+        if e[0] == 'slot':
+            add(e[1])
+    return seen
+
+
 def _match_result(it, ctx, ent):
     """result of the (last) match() call on ent along this path: 0, 1 or None"""
     r = None
@@ -61,11 +77,13 @@ def run(P, rep, tier):
         if f not in u.functions:
             raise AnalysisBroken('anchor function %s vanished from %s' % (f, U))
     rep.explanation = ('Typestate/dominance facts over hashmap.c obtained by path-sensitive abstract interpretation of each '
-                       'table function on an abstract table (lazy HashMap/HashEntry objects, up to two generic probe iterations), '
-                       'plus who-may-call facts for the macro table over all units. Decides the premises of the textbook '
+                       'table function on an abstract table (lazy HashMap/HashEntry objects, up to three generic probe iterations; every bucket subscript is judged against the capacity at the access), '
+                       'plus who-may-call facts for the macro table over all units, plus parse_args interpreted on command lines whose -D/-U word is known only up to its spelling class '
+                       '(all other characters symbolic). Decides the premises of the textbook '
                        'open-addressing argument (claim only after absence, lookups pass tombstones, delete writes the sentinel, '
                        'used accounting, watermarks, last write wins); does not run any history.')
-    rep.assumptions += ['calloc succeeds', 'probe loops are analysed for 0..2 generic iterations; the facts checked are per-iteration facts',
+    rep.assumptions += ['calloc succeeds', 'probe loops are analysed for 0..3 generic iterations; the facts checked are per-iteration facts',
+                        'command-line words other than the -D/-U option word are arbitrary strings; the word after a detached -D/-U exists (the pre-scan of parse_args rejects the line otherwise)',
                         'fnv_hash is a pure function of the key bytes']
     r171(P, u, rep)
     r172(P, u, rep)
@@ -73,18 +91,24 @@ def run(P, rep, tier):
     r175(P, u, rep)
     r176(P, u, rep)
     r177(P, rep)
+    r179(P, rep)
 
 
 def _mk_map(ctx):
-    return [Obj('HashMap', lazy=True, label='map'), Sym('key', 'char *'), Sym('keylen', 'int')]
+    m = Obj('HashMap', lazy=True, label='map')
+    ctx.c17_maps = [m]
+    return [m, Sym('key', 'char *'), Sym('keylen', 'int')]
 
 
 def r171(P, u, rep):
     rep.rule('R17.1', 'a slot is claimed for a new key only after the probe has proven the key absent (reached a NULL slot or examined every slot), and every slot passed on the way was tested with match()', floor=3)
     rep.rule('R17.4', '`used` is incremented exactly when a never-used (NULL) slot is claimed, and by nothing else on the insert path', floor=2)
-    it = Interp(P, u, {'opaque': ['fnv_hash', 'rehash', 'match'], 'loop_limit': 2, 'track_stores': True, 'lazy_field': _lazy_field})
+    rep.rule('R17.8', 'every slot that is read or written is addressed by an index the path confines to 0..capacity-1 of the same table (reduced modulo the capacity, or guarded by the loop test)', floor=3)
+    # three generic probe iterations: a tombstone remembered in the second one can be reused at the NULL slot of the third
+    it = L.SlotInterp(P, u, {'opaque': ['fnv_hash', 'rehash', 'match'], 'loop_limit': 3, 'track_stores': True, 'lazy_field': _lazy_field})
     paths = it.explore('get_or_insert_entry', _mk_map)
     fn = 'get_or_insert_entry'
+    L.slot_obligations(rep, 'R17.8', U, fn, paths, '%s:%d' % (U, u.fn(fn).line))
     nclaim = 0
     for ctx, out in paths:
         if out[0] != 'ret':
@@ -113,6 +137,15 @@ def r171(P, u, rep):
             rep.ob('R17.1', '%s:%s:%s' % (U, fn, construct if not absent else 'claim-after-absence'), absent,
                    'the new key is stored into a slot (%s) while the probe has not reached a NULL slot: a later slot of the same probe sequence may still hold this key, so the table can end up with a duplicate key (delete then leaves a live copy; rehash assertion can abort)' % own,
                    where='%s:%d' % (U, u.fn(fn).line), facts={'path': ctx.trail, 'claimed_slot_state': own})
+            # the slot that receives the key is one the probe has looked at and found free
+            rep.ob('R17.1', '%s:%s:%s' % (U, fn, 'claimed-slot-is-free' if own in ('null', 'tomb') else 'claimed-slot-%s' % own), own in ('null', 'tomb'),
+                   'the new key is stored into a slot whose key is not known to be NULL or the tombstone on this path (%s): it is not one of the slots the probe examined and found free, '
+                   'so a live entry can be overwritten or the key lands where no lookup will look' % own,
+                   where='%s:%d' % (U, u.fn(fn).line), facts={'path': ctx.trail, 'claimed': repr(ent), 'examined': [repr(x) for x in examined]})
+            kl = [e for e in ctx.events if e[0] == 'fstore' and e[2] == 'keylen' and e[1] is ent]
+            rep.ob('R17.1', '%s:%s:claim-records-keylen' % (U, fn), len(kl) >= 1 and isinstance(kl[-1][4], Sym) and kl[-1][4].name == 'keylen',
+                   'a slot is claimed for the new key without recording the key\'s length in it (stored: %r): match() compares lengths first, so the key is not found again, or a longer/shorter key is taken for it' % ([e[4] for e in kl],),
+                   where='%s:%d' % (U, u.fn(fn).line), facts={'path': ctx.trail})
             untested = [x for x in examined if _match_result(it, ctx, x) != 0 and x is not ent] + \
                        ([ent] if _match_result(it, ctx, ent) != 0 else [])
             rep.ob('R17.1', '%s:%s:passed-slots-tested' % (U, fn), not untested,
@@ -156,9 +189,10 @@ def _is_plus_one(e):
 
 def r172(P, u, rep):
     rep.rule('R17.2', 'lookup ends with "absent" only at a NULL slot (never at a tombstone); match() reads through a key only after excluding NULL and the tombstone; both probe functions walk the same sequence', floor=4)
-    it = Interp(P, u, {'opaque': ['fnv_hash', 'match'], 'loop_limit': 2, 'track_stores': True, 'lazy_field': _lazy_field})
+    it = L.SlotInterp(P, u, {'opaque': ['fnv_hash', 'match'], 'loop_limit': 2, 'track_stores': True, 'lazy_field': _lazy_field})
     fn = 'get_entry'
     paths = it.explore(fn, _mk_map)
+    L.slot_obligations(rep, 'R17.8', U, fn, paths, '%s:%d' % (U, u.fn(fn).line))
     for ctx, out in paths:
         if out[0] != 'ret':
             continue
@@ -206,6 +240,8 @@ def r172(P, u, rep):
             rep.ob('R17.2', '%s:match:key-read-guarded' % U, ok,
                    'match() compares bytes through ent->key (or answers true) on a path where the key may still be NULL or the tombstone', where='%s:%d' % (U, u.fn('match').line), facts={'path': ctx.trail})
             seen_true = seen_true or truthy
+            if truthy:
+                _match_true_path(it2, ctx, rep, u, v)
     if not seen_true:
         rep.undecided('R17.2', '%s:match:no-true-path' % U, 'match() has no path that can answer true')
     # same probe sequence in both functions
@@ -226,6 +262,50 @@ def r172(P, u, rep):
         rep.ob('R17.2', '%s:get_entry:probe-advances' % U, lab[0] != lab[1], 'two consecutive probe iterations visit the same slot', where='%s:%d' % (U, u.fn('get_entry').line))
 
 
+def _lookup_args(rep, rule, fn, ctx, u):
+    for e in ctx.events:
+        if e[0] == 'call' and e[1] == 'get_entry':
+            a = e[2]
+            ok = len(a) == 3 and isinstance(a[0], Obj) and a[0].label == 'map' and getattr(a[1], 'name', None) == 'key' and getattr(a[2], 'name', None) == 'keylen'
+            rep.ob(rule, '%s:%s:looks-up-same-key' % (U, fn), ok, '%s looks the entry up with other arguments than its own (map, key, keylen): %r' % (fn, a), where='%s:%d' % (U, u.fn(fn).line))
+
+
+def _zero_when_true(ret, res):
+    """the returned value `ret` is non-zero only if `res` is 0"""
+    if isinstance(ret, Term) and is_opaque(res):
+        if ret.op == '!' and vkey(ret.args[0]) == vkey(res):
+            return True
+        if ret.op == '==' and len(ret.args) == 2 and {vkey(ret.args[0]), vkey(ret.args[1])} == {vkey(res), 0}:
+            return True
+    return False
+
+
+def _match_true_path(it, ctx, rep, u, ret=None):
+    """a path on which match() answers true has compared the lengths and exactly keylen bytes of the two keys"""
+    where = '%s:%d' % (U, u.fn('match').line)
+    names = {('sym', 'ent.keylen'), ('sym', 'keylen')}
+    lens = False
+    for k, v in ctx.facts.items():
+        if isinstance(k, tuple) and len(k) == 4 and k[0] == 'term' and k[1] in ('==', '!=') and {k[2], k[3]} == names:
+            lens = lens or (v is (k[1] == '=='))
+    rep.ob('R17.2', '%s:match:lengths-compared' % U, lens,
+           'match() answers true on a path that has not established ent->keylen == keylen: a key that is a prefix of (or longer than) the stored key is taken for it',
+           where=where, facts={'path': ctx.trail})
+    cmps = [e for e in ctx.events if e[0] == 'call' and e[1] in ('memcmp', 'strncmp')]
+    if not cmps:
+        rep.undecided('R17.2', '%s:match:bytes-compared' % U, 'match() answers true without a memcmp/strncmp call: byte comparison not recognised')
+        return
+    ok = False
+    for e in cmps:
+        a = e[2]
+        b = ctx.bounds.get(vkey(e[4])) if is_opaque(e[4]) else None
+        zero = (b is not None and b[0] == b[1] == 0) or ctx.facts.get(vkey(e[4])) is False or _zero_when_true(ret, e[4])
+        if len(a) == 3 and {vkey(a[0]), vkey(a[1])} == {('sym', 'ent.key'), ('sym', 'key')} and vkey(a[2]) in names and zero and e[1] == 'memcmp':
+            ok = True
+    rep.ob('R17.2', '%s:match:bytes-compared' % U, ok,
+           'match() answers true without memcmp(ent->key, key, keylen) having been 0 (calls seen: %r)' % ([(e[1], e[2]) for e in cmps],), where=where, facts={'path': ctx.trail})
+
+
 def r173(P, u, rep):
     rep.rule('R17.3', 'delete marks the slot with the tombstone sentinel (never NULL) and leaves `used` alone', floor=2)
     it = Interp(P, u, {'opaque': ['get_entry'], 'track_stores': True, 'lazy_field': _lazy_field})
@@ -236,6 +316,7 @@ def r173(P, u, rep):
             continue
         stores = [e for e in ctx.events if e[0] == 'fstore']
         found = any(e[0] == 'call' and e[1] == 'get_entry' and isinstance(it.settle(e[4]), Obj) for e in ctx.events)
+        _lookup_args(rep, 'R17.3', fn, ctx, u)
         if found:
             hit = True
             ks = [e for e in stores if e[2] == 'key']
@@ -300,16 +381,22 @@ def r175(P, u, rep):
     rep.ob('R17.5', '%s:get_or_insert_entry:initial-capacity' % U, init is not None and init >= 2 and (init * high) // 100 >= 1,
            'initial capacity %r' % init, where='%s:%d' % (U, fn.line))
     # rehash copies exactly the live entries
-    it = Interp(P, u, {'opaque': ['hashmap_put2'], 'loop_limit': 1, 'track_stores': True, 'lazy_field': _lazy_field,
-                       'noreturn': ['error', 'exit', 'abort']})
+    it = L.SlotInterp(P, u, {'opaque': ['hashmap_put2', 'strlen'], 'loop_limit': 1, 'track_stores': True, 'lazy_field': _lazy_field,
+                             'noreturn': ['error', 'exit', 'abort']})
     it.models['__assert_fail'] = lambda it_, ctx, n, args: None
     def mk(ctx):
-        return [Obj('HashMap', lazy=True, label='map')]
+        return _mk_map(ctx)[:1]
     nput = 0
-    for ctx, out in it.explore('rehash', mk):
+    rpaths = it.explore('rehash', mk)
+    L.slot_obligations(rep, 'R17.8', U, 'rehash', rpaths, '%s:%d' % (U, rh.line))
+    for ctx, out in rpaths:
         if out[0] != 'ret':
             continue
         puts = [e for e in ctx.events if e[0] == 'call' and e[1] == 'hashmap_put2']
+        if any(isinstance(a, Term) and a.op == 'load' for e in puts for a in e[2]):
+            nput += 1
+            rep.undecided('R17.5', '%s:rehash:copy-source' % U, 'the entry handed to hashmap_put2 is read through a pointer the interpreter does not resolve to a slot')
+            continue
         for e in puts:
             nput += 1
             k = e[2][1]
@@ -317,6 +404,16 @@ def r175(P, u, rep):
             ne = ctx.neq.get(kk, ())
             rep.ob('R17.5', '%s:rehash:copies-live-only' % U, 0 in ne and TOMB in ne,
                    'rehash re-inserts a slot whose key may be NULL or the tombstone', where='%s:%d' % (U, rh.line), facts={'path': ctx.trail})
+            # the copy carries the entry's own (key, keylen, val)
+            src = [o for o in _all_entries(ctx) if o.meta.get('orig_key') is k]
+            a = e[2]
+            same = len(src) == 1 and len(a) == 4 and 'keylen' in src[0].fields and 'val' in src[0].fields and \
+                vkey(a[2]) == vkey(src[0].fields['keylen']) and vkey(a[3]) == vkey(src[0].fields['val'])
+            what = 'length' if len(src) == 1 and len(a) == 4 and vkey(a[2]) != vkey(src[0].fields.get('keylen')) else 'value'
+            rep.ob('R17.5', '%s:rehash:%s' % (U, 'copies-entry-unchanged' if same else 'copy-changes-%s' % what), same,
+                   'rehash re-inserts a live entry with another key %s than the one stored in the slot (passed %r): keys that are not NUL-terminated strings (tag names point into the source text) '
+                   'are then stored under a different key and every entry made before the table grew becomes absent' % (what, a[1:]),
+                   where='%s:%d' % (U, rh.line), facts={'path': ctx.trail})
             rep.ob('R17.5', '%s:rehash:copies-into-new-table' % U, isinstance(e[2][0], Obj) and e[2][0].label != 'map' and not e[2][0].lazy,
                    'rehash re-inserts into the old table', where='%s:%d' % (U, rh.line))
         # a live second-loop entry must be copied
@@ -354,6 +451,7 @@ def r176(P, u, rep):
         for e in ctx.events:
             if e[0] == 'call' and e[1] == 'get_entry':
                 ent = it.settle(e[4])
+        _lookup_args(rep, 'R17.6', 'hashmap_get2', ctx, u)
         v = out[1]
         if isinstance(ent, Obj):
             ok = ent.fields.get('val') is v and v is not None
@@ -394,6 +492,29 @@ def r177(P, rep):
                             readers.setdefault(a0, set()).add((un, fname, c.line))
                         else:
                             writers.setdefault(a0, set()).add((un, fname, c.line, cal))
+    # keys that are token text (pointer into the source buffer + length) are not NUL-terminated: only the length-taking variants may see them
+    nstr = 0
+    for un in P.unit_names:
+        uu = P.unit(un)
+        for fname, fd in uu.functions.items():
+            if un == 'hashmap.c' and fname == 'hashmap_test':
+                continue
+            for c in fd.calls(('hashmap_put', 'hashmap_get', 'hashmap_delete')):
+                a = c.args()
+                if len(a) < 2:
+                    continue
+                nstr += 1
+                k = a[1].strip_all()
+                unterminated = None
+                if k.kind == 'MemberExpr' and k.name == 'loc':
+                    unterminated = 'token text (`->loc`)'
+                elif un == 'hashmap.c' and k.kind == 'MemberExpr' and k.name == 'key':
+                    unterminated = 'a stored key, whose length is in `keylen`'
+                rep.ob('R17.7', '%s:%s:%s' % (un, fname, 'strlen-variant-on-terminated-key' if not unterminated else 'strlen-variant-on-%s' % k.name), not unterminated,
+                       '%s is given %s as key: its length is re-derived with strlen(), but such a key is not a NUL-terminated string of that length, so the entry is stored/looked up under a different key' % (c.callee(), unterminated),
+                       where='%s:%d' % (un, c.line))
+    if nstr == 0:
+        rep.undecided('R17.7', 'hashmap-clients:no-strlen-variant-call', 'no call of hashmap_put/get/delete found')
     w = writers.get('&macros', set())
     if not w:
         rep.undecided('R17.7', 'preprocess.c:macros:no-writer', 'no writer of the macro table found')
@@ -470,14 +591,157 @@ def r177(P, rep):
     if pa is None:
         raise AnalysisBroken('parse_args vanished')
     loops = {}
+    # a call of a main.c helper through which a writer is reached counts as a call of that writer
+    callees = {f: {c.callee() for c in fd.calls()} for f, fd in mu.functions.items() if f != 'parse_args'}
+    def reaches(f, targets, seen=None):
+        seen = seen or set()
+        if f in targets:
+            return True
+        if f in seen or f not in callees:
+            return False
+        seen.add(f)
+        return any(reaches(g, targets, seen) for g in callees[f])
     for c in pa.calls():
         cal = c.callee()
-        if cal in ('define', 'undef_macro', 'define_macro'):
-            loop = c.enclosing('ForStmt')
-            loops.setdefault(cal, []).append((loop.id if loop else None, c.line))
+        if cal is None:
+            continue
+        loop = c.enclosing('ForStmt')
+        if cal in ('define', 'define_macro') or (cal not in ('undef_macro',) and reaches(cal, {'define', 'define_macro'})):
+            loops.setdefault('define', []).append((loop.id if loop else None, c.line))
+        if cal == 'undef_macro' or (cal not in ('define', 'define_macro') and reaches(cal, {'undef_macro'})):
+            loops.setdefault('undef_macro', []).append((loop.id if loop else None, c.line))
     dl = set(l for l, _ in loops.get('define', []) + loops.get('define_macro', []))
     ul = set(l for l, _ in loops.get('undef_macro', []))
     ok = bool(dl) and bool(ul) and dl == ul and None not in dl and len(dl) == 1
     rep.ob('R17.7', 'main.c:parse_args:D-U-one-loop', ok,
            '-D and -U are not both applied inside the single option loop (define sites %r, undef sites %r): a later -D would not override an earlier -U or vice versa' % (loops.get('define'), loops.get('undef_macro')),
            where='main.c:%d' % pa.line)
+
+
+WRITERS = ('define', 'undef_macro', 'define_macro')
+
+
+def _uncast(v):
+    while isinstance(v, Term) and v.op.startswith('cast') and v.args:
+        v = v.args[0]
+    return v
+
+
+def _mentions(k, name):
+    if isinstance(k, tuple):
+        return any(_mentions(x, name) for x in k)
+    return k == name
+
+
+def r179(P, rep):
+    """-D/-U on symbolic command lines: which writer is called, with which word, decided by the option word alone"""
+    from ..interp import Arr, Unsupported
+    rep.rule('R17.9', 'for each spelling of -D/-U (argument attached to the option word, or in the next word) with every other character of the command line unknown, the option loop '
+             'calls exactly one writer of the macro table: define for -D, undef_macro for -U, with the rest of the option word (attached) or the next word (detached); '
+             'the next word of a detached option is handed over without being examined', floor=4)
+    mu = P.unit('main.c')
+    if 'parse_args' not in mu.functions:
+        raise AnalysisBroken('parse_args vanished')
+    where = 'main.c:%d' % mu.fn('parse_args').line
+    # helpers of main.c are followed only if a writer call can be reached through them
+    callers = {f: {c.callee() for c in fd.calls()} for f, fd in mu.functions.items()}
+    reach = set(WRITERS)
+    changed = True
+    while changed:
+        changed = False
+        for f, cs in callers.items():
+            if f not in reach and cs & reach:
+                reach.add(f); changed = True
+    opaque = [f for f in mu.functions if f not in reach and f not in ('parse_args', 'take_arg')]
+    want_fn = {'D': 'define', 'U': 'undef_macro'}
+    for letter in ('D', 'U'):
+        for form in ('detached', 'attached'):
+            tag = '%s-%s' % (letter, form)
+            w1, w2 = L.word(1), L.word(2)
+
+            def mk(ctx, letter=letter, form=form, w1=w1, w2=w2):
+                L.set_char(ctx, w1, 0, ord('-'))
+                L.set_char(ctx, w1, 1, ord(letter))
+                if form == 'detached':
+                    L.set_char(ctx, w1, 2, 0)
+                    ctx.neq.setdefault(w2.key(), set()).add(0)       # the next word exists
+                    words = ['chibicc', w1, w2, 'a.c', 0]
+                else:
+                    L.exclude_char(ctx, w1, 2, 0)
+                    words = ['chibicc', w1, 'a.c', 0]
+                return [len(words) - 1, Arr(words, label='argv')]
+            it = L.ArgvInterp(P, mu, {'cut': {w: None for w in WRITERS}, 'opaque': opaque, 'models': {'strcmp': L.m_strcmp, 'strncmp': L.m_strncmp},
+                                'inline_other_units': False, 'loop_limit': 2,
+                                'noreturn': ['error', 'error_at', 'error_tok', 'exit', '_exit', 'abort', '__assert_fail', 'usage']})
+            try:
+                paths = it.explore('parse_args', mk, max_paths=400)
+            except AnalysisBroken as e:
+                rep.undecided('R17.9', 'main.c:parse_args:%s' % tag, 'parse_args could not be followed on a symbolic `-%s` command line: %s' % (letter, e))
+                continue
+            if not paths:
+                rep.undecided('R17.9', 'main.c:parse_args:%s' % tag, 'no feasible path of parse_args for this command line')
+                continue
+            bad = {}
+            for ctx, out in paths:
+                calls = [e for e in ctx.events if e[0] == 'call' and e[1] in WRITERS]
+                shown = [(e[1], e[2]) for e in calls]
+                exp_word, exp_off = (w2, 0) if form == 'detached' else (w1, 2)
+                if not calls:
+                    why = 'no-writer-call' if out[0] == 'ret' else 'rejected'
+                    bad.setdefault(why, (ctx, 'the option has no effect on the macro table (%s)' % (out[1:3],)))
+                    continue
+                if len(calls) > 1:
+                    bad.setdefault('several-writer-calls', (ctx, 'more than one operation is applied: %r' % (shown,)))
+                    continue
+                c = calls[0]
+                if c[1] == 'define_macro':
+                    rep.undecided('R17.9', 'main.c:parse_args:%s:writer-shape' % tag, 'define_macro is called directly; the name/value split is not followed')
+                    continue
+                if c[1] != want_fn[letter]:
+                    bad.setdefault('calls-%s' % c[1], (ctx, '`-%s` (%s argument) ends in %s(%r): the table gets the opposite operation' % (letter, form, c[1], c[2])))
+                    continue
+                sp = L.split_ptr(c[2][0]) if c[2] else None
+                if sp is None or sp[0] is not exp_word or sp[1] != exp_off:
+                    bad.setdefault('wrong-argument', (ctx, '`-%s` (%s argument) passes %r instead of %s%s' % (letter, form, c[2], exp_word.name, '+%d' % exp_off if exp_off else '')))
+                    continue
+                if form == 'detached':
+                    keys = list(ctx.facts) + list(ctx.bounds) + list(ctx.neq) + [vkey(s) for (s, o, w) in getattr(ctx, 'c17_differs', [])]
+                    if any(_mentions(k, w2.name) for k in keys if k != w2.key()):
+                        bad.setdefault('argument-word-examined', (ctx, 'the word after `-%s` is examined (%s) before/after being handed over as the macro argument: what is done with the option depends on the spelling of the macro name' % (letter, L.describe(ctx, w2) or 'compared')))
+            rep.ob('R17.9', 'main.c:parse_args:%s' % tag, not bad, '%d kind(s) of wrong handling: %s' % (len(bad), ', '.join(sorted(bad))), where=where, facts={'paths': len(paths)})
+            for why, (ctx, msg) in sorted(bad.items()):
+                rep.ob('R17.9', 'main.c:parse_args:%s:%s' % (tag, why), False, msg + '; the name table then does not reflect the most recent command-line operation on that name',
+                       where=where, facts={'path': ctx.trail[-12:], 'option word': L.describe(ctx, w1)})
+
+    # define(): the name is the text before the first '=', the body the text after it (or "1")
+    if 'define' in mu.functions:
+        it = Interp(P, mu, {'cut': {'define_macro': None}, 'opaque': ['strchr', 'strndup', 'strdup', 'strlen'], 'inline_other_units': False})
+        res = it.explore('define', lambda ctx: [Sym('str', 'char *')])
+        split = plain = 0
+        for ctx, out in res:
+            dm = [e for e in ctx.events if e[0] == 'call' and e[1] == 'define_macro']
+            sc = [e for e in ctx.events if e[0] == 'call' and e[1] == 'strchr']
+            eq = sc[0][4] if len(sc) == 1 and len(sc[0][2]) == 2 and vkey(sc[0][2][0]) == ('sym', 'str') and sc[0][2][1] == ord('=') else None
+            if len(dm) != 1 or eq is None:
+                rep.ob('R17.9', 'main.c:define:one-definition', False, 'define() does not look for the first `=` of its argument and define exactly one macro (strchr calls %r, define_macro calls %r)' % ([e[2] for e in sc], [e[2] for e in dm]),
+                       where='main.c:%d' % mu.fn('define').line)
+                continue
+            eqk = vkey(eq)
+            has_eq = (0 in ctx.neq.get(eqk, ())) or ctx.facts.get(eqk) is True
+            a = dm[0][2]
+            if has_eq:
+                split += 1
+                nd = [e for e in ctx.events if e[0] == 'call' and e[1] == 'strndup' and e[4] is a[0]]
+                from ..interp import Lin
+                ln = Lin.of(_uncast(nd[0][2][1])) if nd and len(nd[0][2]) == 2 else None
+                want = Lin.of(eq).add(Lin.of(Sym('str')), -1)
+                name_ok = bool(nd) and vkey(nd[0][2][0]) == ('sym', 'str') and ln is not None and vkey(ln if not isinstance(ln, int) else ln) == vkey(want)
+                body = Lin.of(_uncast(a[1])) if is_opaque(a[1]) else None
+                body_ok = body is not None and vkey(body.add(Lin.of(eq), -1)) == 1
+                rep.ob('R17.9', 'main.c:define:name-is-text-before-equals', name_ok, '`-Dname=body` defines another name than the text before the `=` (name argument %r)' % (nd[0][2] if nd else a[0],), where='main.c:%d' % mu.fn('define').line)
+                rep.ob('R17.9', 'main.c:define:body-is-text-after-equals', body_ok, '`-Dname=body` gives the macro another body than the text after the `=` (%r)' % (a[1],), where='main.c:%d' % mu.fn('define').line)
+            else:
+                plain += 1
+                rep.ob('R17.9', 'main.c:define:plain-name-defined-as-1', vkey(a[0]) == ('sym', 'str') and a[1] == '1', '`-Dname` does not define `name` as 1 (define_macro%r)' % (tuple(a),), where='main.c:%d' % mu.fn('define').line)
+        if not split or not plain:
+            rep.undecided('R17.9', 'main.c:define:shape', 'define() has no path for an argument %s `=`' % ('with' if not split else 'without'))
